@@ -151,8 +151,9 @@ FieldsIR(reg, S, fields, pp, vis, acc) ==   \* acc: [fs, used, kinds]
   ELSE LET f == Head(fields)
            r == RP(reg, S, f.ty, TRUE, pp, f.tn)
        IN IF r.err # "" THEN [err |-> r.err, errid |-> r.errid, fs |-> <<>>, used |-> {}, kinds |-> <<>>]
-          ELSE LET boxed == Contains(f.tn, "Box<")
-                   isCompact == r.kind = "compact"
+          ELSE LET isCompact == r.kind = "compact"
+                   \* a compact field is emitted as `#[codec(compact)] inner`, never boxed (Box<inner> has no compact encoding)
+                   boxed == ~isCompact /\ Contains(f.tn, "Box<")
                    rf == [name |-> f.name, vis |-> vis, ty |-> IF boxed THEN BoxTree(S, r.ty) ELSE r.ty,
                           compact |-> isCompact /\ S.codec, skip |-> FALSE, attrs |-> <<>>]
                IN FieldsIR(reg, S, Tail(fields), pp, vis,
